@@ -23,7 +23,7 @@ each of which, when broken, makes some grammar's parser accept or reject wrongly
 """
 import re
 
-from ..mir import Mir, Exprs, canon, parse_at, inline_helpers, short_path
+from ..mir import Mir, Exprs, canon, parse_at, inline_helpers, short_path, CALLABLE_RE, callable_fn, callable_result, shift_params
 from ..syn import Syn, nodes, ident_of, unparse, method_chain
 from .. import tpl
 from ..report import Result, finish
@@ -144,31 +144,38 @@ def check_renumber(mir, res, rule):
     # O4: the updater maps old position -> new position
     sortf = mir.fns[sortc[0].rkey]
     rs = canon(Exprs(sortf).local(0))
-    m4 = re.match(r"^tuple\{Iterator::collect\(Iterator::map\(IntoIterator@Vec::into_iter\((?P<S>.*)\), [\w:]+::\{closure#\d+\}\{\}\)\), (?P<UPD>[\w:]+)\((?P<S2>.*)\)\}$", rs)
+    m4 = re.match(r"^tuple\{Iterator::collect\(Iterator::map\(IntoIterator@Vec::into_iter\((?P<S>.*)\), (?P<PROJ>" + CALLABLE_RE + r")\)\), (?P<UPD>[\w:]+)\((?P<S2>.*)\)\}$", rs)
     res.inst(rule, "sort|result", sortf.where, True, rs[:220])
     if not m4 or m4.group("S") != m4.group("S2"):
         res.violate(rule, "sort|result", sortf.where, "the sorted list and the updater must come from one and the same sorted (position, item) vector; found `%s`" % rs[:240])
         return
-    cl0 = [g for g in mir.fns.values() if g.kind == "Closure" and g.parent == sortf.key]
-    for g in cl0:
-        rc = canon(Exprs(g).local(0))
-        res.inst(rule, "sort|item-projection", g.where, True, rc)
-        if rc != "param2.1":
-            res.violate(rule, "sort|item-projection", g.where, "the sorted list must consist of the items of the sorted pairs (`.1`); found `%s`" % rc)
+    # (the projection is a closure or a function passed by path: both are read through their return value)
+    g, _k = callable_fn(mir, sortf, m4.group("PROJ"))
+    rc = callable_result(mir, sortf, m4.group("PROJ"))
+    res.inst(rule, "sort|item-projection", (g or sortf).where, True, str(rc))
+    if rc != "param2.1":
+        res.violate(rule, "sort|item-projection", (g or sortf).where, "the sorted list must consist of the items of the sorted pairs (`.1`); found `%s`" % rc)
     # the change records and the map
     chg = [g for g in mir.fns.values() if not g.derived and any(a for a in agg_fields(g, Exprs(g), "::IndexChange"))]
     n_chg = 0
     for g in chg:
         for (v, w3) in agg_fields(g, Exprs(g), "::IndexChange"):
             n_chg += 1
-            ok = v.get("old") == "param2.1.0" and v.get("new") == "param2.0"
+            kshift = 0 if g.kind == "Closure" else 1  # a function passed by path has its argument in param1
+            ok = shift_params(v.get("old", ""), kshift) == "param2.1.0" and shift_params(v.get("new", ""), kshift) == "param2.0"
             res.inst(rule, "sort|change-record", w3, True, "%s" % v)
             if not ok:
                 res.violate(rule, "sort|change-record", w3, "a change record must be {old: the position stored with the item, new: the position after sorting}; found %s — the updater would be the inverse permutation" % v)
             par = mir.fns.get(g.parent) if g.kind == "Closure" else None
+            how = "%s{}" % short(par, g) if par is not None else None
+            if par is None:
+                # the record is made by a function passed by path: its user is whoever maps it over the sorted vector
+                users = [h_ for h_ in mir.fns.values() if not h_.derived and h_.key != g.key and ("const(fn:%s)" % g.path) in canon(Exprs(h_).local(0))]
+                par = users[0] if len(users) == 1 else None
+                how = "const(fn:%s)" % g.path
             if par is not None:
                 rp = canon(Exprs(par).local(0))
-                okp = rp == "Iterator::collect(Iterator::map(Iterator::enumerate(slice::iter(param1)), %s{}))" % (short(par, g))
+                okp = rp == "Iterator::collect(Iterator::map(Iterator::enumerate(slice::iter(param1)), %s))" % how
                 res.inst(rule, "sort|change-walk", par.where, True, rp[:200])
                 if not okp:
                     res.violate(rule, "sort|change-walk", par.where, "change records must be made for every element with its position after sorting (`iter().enumerate().map(..)`); found `%s`" % rp[:200])
@@ -178,15 +185,15 @@ def check_renumber(mir, res, rule):
     for g in mk:
         rg = canon(Exprs(g).local(0))
         srt = [c for c in g.calls() if (c.rpath or "").endswith("sort_by_key") or (c.rpath or "").endswith("sort_unstable_by_key")]
-        cls = {c_.path.rsplit("::", 1)[-1]: canon(Exprs(c_).local(0)) for c_ in mir.fns.values() if c_.kind == "Closure" and c_.parent == g.key}
-        res.inst(rule, "sort|map", g.where, True, "%s ; closures %s" % (rg[:160], cls))
-        okm = re.match(r"^" + FROM_MAP + r"\(Iterator::collect\(Iterator::map\(IntoIterator@Vec::into_iter\(([\w:]+\(param1\))\), [\w:]+::(\{closure#\d+\})\{\}\)\)\)$", rg)
+        okm = re.match(r"^" + FROM_MAP + r"\(Iterator::collect\(Iterator::map\(IntoIterator@Vec::into_iter\(([\w:]+\(param1\))\), (" + CALLABLE_RE + r")\)\)\)$", rg)
         good = False
+        cls = {}
         if okm and len(srt) == 1:
             sorted_what = canon(Exprs(g).operand(srt[0].args[0]))
             keyc = canon(Exprs(g).operand(srt[0].args[1]))
-            mk_ = re.search(r"(\{closure#\d+\})", keyc)
-            good = sorted_what == okm.group(1) and mk_ is not None and cls.get(mk_.group(1)) == "param2.old" and cls.get(okm.group(2)) == "param2.new"
+            cls = {"key": callable_result(mir, g, keyc), "map": callable_result(mir, g, okm.group(2))}
+            good = sorted_what == okm.group(1) and cls["key"] == "param2.old" and cls["map"] == "param2.new"
+        res.inst(rule, "sort|map", g.where, True, "%s ; key/map callables %s" % (rg[:160], cls))
         if not good:
             res.violate(rule, "sort|map", g.where, "the updater's map must list `new` in ascending order of `old` (sort_by_key(old), map(new)); found `%s` with %s" % (rg[:200], cls))
     res.floor("updater map builders", len(mk), 1)
@@ -259,7 +266,10 @@ def check_move(mir, res, rule):
             a = [canon(ex.operand(x)) for x in c.args]
             fld = "actions" if nm == "set_action" else "gotos"
             K = "(Iterator@IntoIter::next(IntoIterator@HashMap::into_iter(param2.%s)) as Some).0" % fld
-            want = [ret, K + ".0.0", K + ".0.1", K + (".1.1" if nm == "set_action" else ".1")]
+            from ..conflict import value_projections_of
+            bt = [i["head"] for i in f.inputs if i["head"].endswith("TableBuilder")]
+            aproj = value_projections_of(mir, bt[0], "actions")[1] if bt else ".1"
+            want = [ret, K + ".0.0", K + ".0.1", K + (".1" + aproj if nm == "set_action" else ".1")]
             seen.add(nm)
             res.inst(rule, "move|%s" % nm, c.where, True, "%s" % a[1:])
             if a != want:
